@@ -20,7 +20,7 @@ import (
 // C17 — name and number trees are faithful, ordered dictionaries.
 
 func init() {
-	addRun("C17", "key sets for name trees (random bytes, shared prefixes, prefix chains, empty key, non-ASCII, long keys) and number trees (dense, sparse, negative, int64 extremes) of sizes 0..10000 crossing 64 and 4096 (quick: up to 4097 once, mostly <= 600), written with Write/WriteMap, values of six object kinds; probes: present keys (incl. leaf boundaries), absent keys between neighbours, below the minimum, above the maximum; plus unsorted/duplicate sequences. A case is non-trivial when it has at least two keys; distinct by kind, key sequence and probes.", runC17)
+	addRun("C17", "key sets for name trees (random bytes, shared prefixes, prefix chains, empty key, non-ASCII, long keys) and number trees (dense, sparse, negative, int64 extremes) of sizes 0..10000 crossing 64 and 4096 (quick: up to 4097 once, mostly <= 600), written with Write/WriteMap, values of six object kinds; probes: present keys (incl. leaf boundaries), absent keys between neighbours, below the minimum, above the maximum; plus unsorted/duplicate sequences; every size class also written while a stream is open on the pdf.Writer (all Puts queued until the stream closes, with and without other queued objects), then every present key looked up. A case is non-trivial when it has at least two keys; distinct by kind, key sequence and probes.", runC17)
 	addReplay("C17", "tree", replayC17)
 }
 
@@ -159,10 +159,18 @@ type trsTreeCase[K cmp.Ordered] struct {
 	probes []K
 	style  int
 	useMap bool
+	stream int // 0: plain; 1: the tree is written while a stream is open on the pdf.Writer (every Put is queued until the stream closes); 2: same, with other objects queued before and after
+}
+
+// trsOther is an object the harness itself wrote next to the tree (to see that
+// queued objects do not disturb each other).
+type trsOther struct {
+	ref  pdf.Reference
+	want pdf.Object
 }
 
 func trsEncodeCase[K cmp.Ordered](api *trsTreeAPI[K], tc *trsTreeCase[K]) string {
-	return fmt.Sprintf("%s|%d|%v|%s|%s", api.kind, tc.style, tc.useMap, trsToks(api, tc.keys), trsToks(api, tc.probes))
+	return fmt.Sprintf("%s|%d|%v|%s|%s|%d", api.kind, tc.style, tc.useMap, trsToks(api, tc.keys), trsToks(api, tc.probes), tc.stream)
 }
 
 func trsToks[K cmp.Ordered](api *trsTreeAPI[K], ks []K) string {
@@ -194,11 +202,39 @@ func trsUntoks[K cmp.Ordered](api *trsTreeAPI[K], s string) ([]K, error) {
 type trsFail struct{ key, desc string }
 
 // trsWriteFile writes the tree and closes the file around it.
-func trsWriteFile[K cmp.Ordered](api *trsTreeAPI[K], tc *trsTreeCase[K]) (data []byte, root pdf.Reference, werr error) {
+func trsWriteFile[K cmp.Ordered](api *trsTreeAPI[K], tc *trsTreeCase[K]) (data []byte, root pdf.Reference, others []trsOther, streamRef pdf.Reference, werr error) {
 	buf := &bytes.Buffer{}
 	w, err := pdf.NewWriter(buf, pdf.V1_7, nil)
 	if err != nil {
 		panic(err)
+	}
+	put := func(o pdf.Object) {
+		ref := w.Alloc()
+		if err := w.Put(ref, o); err != nil {
+			panic(err)
+		}
+		others = append(others, trsOther{ref, o})
+	}
+	var sw interface {
+		Write([]byte) (int, error)
+		Close() error
+	}
+	if tc.stream > 0 {
+		if tc.stream == 2 {
+			put(pdf.Array{pdf.Integer(1), pdf.Name("before-stream")})
+		}
+		streamRef = w.Alloc()
+		sw, err = w.OpenStream(streamRef, pdf.Dict{})
+		if err != nil {
+			panic(err)
+		}
+		if _, err := sw.Write([]byte("BT ")); err != nil {
+			panic(err)
+		}
+		if tc.stream == 2 {
+			put(pdf.Dict{"Queued": pdf.Integer(1), "A": pdf.Array{pdf.Name("x"), pdf.String("y")}})
+			put(pdf.Array{pdf.String("queued before the tree")})
+		}
 	}
 	if tc.useMap && api.writeMap != nil {
 		m := make(map[K]pdf.Object, len(tc.keys))
@@ -216,6 +252,20 @@ func trsWriteFile[K cmp.Ordered](api *trsTreeAPI[K], tc *trsTreeCase[K]) (data [
 		}
 		root, werr = api.write(w, seq)
 	}
+	if tc.stream > 0 {
+		if tc.stream == 2 {
+			put(pdf.Dict{"Queued": pdf.Integer(2)})
+		}
+		if _, err := sw.Write([]byte("ET")); err != nil {
+			panic(err)
+		}
+		if err := sw.Close(); err != nil {
+			panic(err)
+		}
+		if tc.stream == 2 {
+			put(pdf.Array{pdf.Integer(3), pdf.Name("after-stream")})
+		}
+	}
 	pages := w.Alloc()
 	if err := w.Put(pages, pdf.Dict{"Type": pdf.Name("Pages"), "Kids": pdf.Array{}, "Count": pdf.Integer(0)}); err != nil {
 		panic(err)
@@ -224,7 +274,7 @@ func trsWriteFile[K cmp.Ordered](api *trsTreeAPI[K], tc *trsTreeCase[K]) (data [
 	if err := w.Close(); err != nil {
 		panic(err)
 	}
-	return buf.Bytes(), root, werr
+	return buf.Bytes(), root, others, streamRef, werr
 }
 
 func trsLookupTok(o pdf.Object, err error) string {
@@ -249,6 +299,7 @@ type trsShapeWalker[K cmp.Ordered] struct {
 	rd    *pdf.Reader
 	fails []trsFail
 	keys  []K // all keys in tree order
+	seen  map[pdf.Reference]bool
 }
 
 func (sw *trsShapeWalker[K]) fail(key, format string, a ...any) {
@@ -281,6 +332,15 @@ func (sw *trsShapeWalker[K]) walk(ref pdf.Reference, isRoot bool, depth int, sb 
 		sw.fail("shape", "tree deeper than 40")
 		return
 	}
+	if sw.seen == nil {
+		sw.seen = map[pdf.Reference]bool{}
+	}
+	if sw.seen[ref] {
+		// a node listed twice: not a tree (and walking it again could take exponential time)
+		sw.fail("shape", "node %v is reachable twice", ref)
+		return
+	}
+	sw.seen[ref] = true
 	obj, err := sw.rd.Get(ref, true)
 	if err != nil {
 		sw.fail("shape", "reading node %v: %v", ref, err)
@@ -386,7 +446,7 @@ func trsRunCase[K cmp.Ordered](api *trsTreeAPI[K], tc *trsTreeCase[K]) (implLine
 			sortedInput = false
 		}
 	}
-	data, root, werr := trsWriteFile(api, tc)
+	data, root, others, streamRef, werr := trsWriteFile(api, tc)
 
 	// the map being stored (for WriteMap a later duplicate would overwrite; the
 	// generator only uses WriteMap with distinct keys)
@@ -423,6 +483,23 @@ func trsRunCase[K cmp.Ordered](api *trsTreeAPI[K], tc *trsTreeCase[K]) (implLine
 		return "err reader", fails
 	}
 	defer rd.Close()
+
+	// the objects written next to the tree and the stream that was open meanwhile
+	for _, o := range others {
+		got, err := rd.Get(o.ref, true)
+		if err != nil || !pdf.Equal(got, o.want) {
+			fail("stream-other", "object %v written next to the tree reads back as %v, %v; want %v", o.ref, got, err, o.want)
+		}
+	}
+	if streamRef != 0 {
+		got, err := rd.Get(streamRef, false)
+		stm, ok := got.(*pdf.Stream)
+		if err != nil || !ok {
+			fail("stream-other", "the stream that was open while the tree was written reads back as %T, %v", got, err)
+		} else if body, err := pdf.ReadAll(rd, nil, stm, 1<<20); err != nil || string(body) != "BT ET" {
+			fail("stream-other", "the stream that was open while the tree was written holds %q, %v", body, err)
+		}
+	}
 
 	var rootObj pdf.Object
 	shape := "none"
@@ -536,11 +613,15 @@ func trsRunCase[K cmp.Ordered](api *trsTreeAPI[K], tc *trsTreeCase[K]) (implLine
 
 func replayC17(input string) (bool, string) {
 	parts := strings.Split(input, "|")
-	if len(parts) != 5 {
+	if len(parts) != 5 && len(parts) != 6 {
 		return true, "bad replay input"
 	}
 	style, _ := strconv.Atoi(parts[1])
 	useMap := parts[2] == "true"
+	stream := 0
+	if len(parts) == 6 {
+		stream, _ = strconv.Atoi(parts[5])
+	}
 	var fails []trsFail
 	var line string
 	if parts[0] == "name" {
@@ -549,14 +630,14 @@ func replayC17(input string) (bool, string) {
 		if e1 != nil || e2 != nil {
 			return true, "bad replay input"
 		}
-		line, fails = trsRunCase(&trsNameAPI, &trsTreeCase[pdf.Name]{keys, probes, style, useMap})
+		line, fails = trsRunCase(&trsNameAPI, &trsTreeCase[pdf.Name]{keys, probes, style, useMap, stream})
 	} else {
 		keys, e1 := trsUntoks(&trsNumAPI, parts[3])
 		probes, e2 := trsUntoks(&trsNumAPI, parts[4])
 		if e1 != nil || e2 != nil {
 			return true, "bad replay input"
 		}
-		line, fails = trsRunCase(&trsNumAPI, &trsTreeCase[pdf.Integer]{keys, probes, style, useMap})
+		line, fails = trsRunCase(&trsNumAPI, &trsTreeCase[pdf.Integer]{keys, probes, style, useMap, stream})
 	}
 	if len(fails) > 0 {
 		return false, fmt.Sprintf("%s: %s (impl line %s)", fails[0].key, fails[0].desc, truncate(line))
@@ -790,8 +871,18 @@ func runC17(c *Ctx) {
 		nProbe = 30
 	}
 
-	one := func(n int, tag string) {
-		kind := r.Intn(2)
+	// kind: 0 name tree, 1 number tree, <0 random; stream: see trsTreeCase, <0 mostly plain;
+	// allKeys: probe every present key
+	oneK := func(n int, tag string, kind, stream int, allKeys bool) {
+		if kind < 0 {
+			kind = r.Intn(2)
+		}
+		if stream < 0 {
+			stream = 0
+			if r.P(1, 5) {
+				stream = 1 + r.Intn(2)
+			}
+		}
 		style := r.Intn(2)
 		useMap := r.P(1, 4)
 		unsort := tag == "unsorted"
@@ -800,11 +891,14 @@ func runC17(c *Ctx) {
 		if kind == 0 {
 			keys := trsGenNames(r.Fork(), n)
 			probes := trsNameProbes(r.Fork(), keys, nProbe)
+			if allKeys {
+				probes = append(append([]pdf.Name(nil), keys...), probes...)
+			}
 			if unsort {
 				keys = trsUnsort(r, keys)
 				useMap = false
 			}
-			tc := &trsTreeCase[pdf.Name]{keys, probes, style, useMap}
+			tc := &trsTreeCase[pdf.Name]{keys, probes, style, useMap, stream}
 			enc = trsEncodeCase(&trsNameAPI, tc)
 			line, fails = trsRunCase(&trsNameAPI, tc)
 			opLine = "TRS nt name " + trsToks(&trsNameAPI, keys) + " " + trsToks(&trsNameAPI, probes)
@@ -812,10 +906,13 @@ func runC17(c *Ctx) {
 		} else {
 			keys := trsGenNums(r.Fork(), n)
 			probes := trsNumProbes(r.Fork(), keys, nProbe)
+			if allKeys {
+				probes = append(append([]pdf.Integer(nil), keys...), probes...)
+			}
 			if unsort {
 				keys = trsUnsort(r, keys)
 			}
-			tc := &trsTreeCase[pdf.Integer]{keys, probes, style, false}
+			tc := &trsTreeCase[pdf.Integer]{keys, probes, style, false, stream}
 			enc = trsEncodeCase(&trsNumAPI, tc)
 			line, fails = trsRunCase(&trsNumAPI, tc)
 			opLine = "TRS nt num " + trsToks(&trsNumAPI, keys) + " " + trsToks(&trsNumAPI, probes)
@@ -839,6 +936,12 @@ func runC17(c *Ctx) {
 		if useMap {
 			c.Stat("WriteMap")
 		}
+		switch stream {
+		case 1:
+			c.Stat("written_while_stream_open")
+		case 2:
+			c.Stat("written_while_stream_open_with_other_queued_objects")
+		}
 		for _, f := range fails {
 			c.Violate("tree", f.key, f.desc, enc)
 		}
@@ -846,6 +949,30 @@ func runC17(c *Ctx) {
 		if n > 0 && n < 6 {
 			c.Sample(opLine + " => " + line)
 		}
+	}
+
+	one := func(n int, tag string) { oneK(n, tag, -1, -1, false) }
+
+	// the tree written plainly and while a stream is open on the pdf.Writer: every Put of a
+	// node is then only queued and serialised when the stream closes, so anything the tree
+	// writer reuses between nodes would show up in all queued nodes.  Every present key is
+	// looked up with both readers.
+	streamSizes := []int{1, 2, 63, 64, 65, 129, 200, 700}
+	if c.Thorough {
+		streamSizes = append(streamSizes, 4097)
+	}
+	for _, n := range streamSizes {
+		for kind := 0; kind < 2; kind++ {
+			for stream := 0; stream < 3; stream++ {
+				oneK(n, "stream", kind, stream, true)
+			}
+		}
+	}
+	if !c.Thorough {
+		// two intermediate nodes are queued only from 4097 entries on (mergeTail's node of 64
+		// leaves, then collapse's nodes)
+		oneK(4097, "stream", 0, 1, true)
+		oneK(4097, "stream", 1, 2, true)
 	}
 
 	for _, n := range sizes {
